@@ -205,3 +205,29 @@ Proof.
 Qed.
 
 End Width.
+
+(* uniform-signature wrappers (section discharge drops unused hypotheses) *)
+Lemma neg_checked_exact_all (H : Z) (Hp : 0 < H) (s : bool) (a : Z) :
+  in_range s H a = true ->
+  neg_checked s H a = (if in_range s H (- a) then Ok (- a) else Err E_OVERFLOW).
+Proof.
+  intros R. destruct s.
+  - now apply neg_checked_spec.
+  - now apply neg_checked_unsigned_spec.
+Qed.
+Lemma mod_checked_min_neg1_all (H : Z) (Hp : 0 < H) :
+  mod_checked true H (- H) (-1) = Err E_OVERFLOW /\ Z.rem (- H) (-1) = 0.
+Proof. apply mod_checked_min_neg1. Qed.
+Lemma wrap_is_reduction_all (H : Z) (Hp : 0 < H) (s : bool) (z : Z) :
+  in_range s H (wrap s H z) = true /\ exists k, wrap s H z = z + k * (2 * H).
+Proof. split; [now apply wrap_in_range|now apply wrap_cong]. Qed.
+
+(* non-vacuity: concrete 8-bit instances *)
+Example ex_div_min_neg1 : integer_op_elem true 128 Div (-128) (-1) = Err E_OVERFLOW.
+Proof. vm_compute. reflexivity. Qed.
+Example ex_rem_min_neg1 : integer_op_elem true 128 Rem (-128) (-1) = Ok 0.
+Proof. vm_compute. reflexivity. Qed.
+Example ex_add_wrap : integer_op_elem true 128 AddWrapping 127 1 = Ok (-128).
+Proof. vm_compute. reflexivity. Qed.
+Example ex_mul_u8 : integer_op_elem false 128 Mul 16 16 = Err E_OVERFLOW /\ integer_op_elem false 128 Mul 15 17 = Ok 255.
+Proof. vm_compute. split; reflexivity. Qed.
